@@ -357,3 +357,38 @@ theorem mu_decreases_after_exit (c : Cfg) (s s' : St) (l : Lbl) (hnc : counting 
   ⟨mu_decreases_gen c 0 s s' l (fun h => by rw [hnc] at h; cases h) hi hs, noncounting_stays c s s' l hnc hs⟩
 
 end Sedpack.Pool
+
+namespace Sedpack.Pool
+
+/-- normal end of the pass: the consumer left its loop because all workers reported a sentinel -/
+def normalEnd (s : St) : Prop := (∃ k, s.ph = .resetting k 0) ∨ s.ph = .fin 0
+
+theorem normalEnd_perm (c : Cfg) (hfw : c.forward = true) (hT : 1 ≤ c.T) (hTP : c.T ≤ c.P) (s : St) (h : Reach c s) (hend : normalEnd s) :
+    ∃ n, c.n = some n ∧ s.out.Perm (List.range n) := by
+  induction h with
+  | init => rcases hend with ⟨k, hk⟩ | hk <;> simp [init] at hk
+  | @step s s' l hr hs ih =>
+    have hi := inv_reach c hfw (Nat.le_trans hT hTP) s hr
+    -- either the previous state had already ended normally with the same output, or this is `cFinish`
+    by_cases hprev : normalEnd s
+    · obtain ⟨n, hn, hp⟩ := ih hprev
+      refine ⟨n, hn, ?_⟩
+      have hout : s'.out = s.out := by
+        rcases hprev with ⟨k, hk⟩ | hk <;>
+          (cases l <;> simp [step, hk] at hs <;> (try split at hs) <;> (try split at hs) <;> (try split at hs) <;>
+            simp at hs <;> (try subst hs) <;> rfl)
+      rw [hout]; exact hp
+    · -- the only way to enter a normal end is `cFinish`
+      have hfin : l = .cFinish := by
+        rcases hend with ⟨k, hk⟩ | hk <;>
+          (cases l <;> simp only [step] at hs <;> (try split at hs) <;> (try split at hs) <;> (try split at hs) <;>
+            simp at hs <;> (try subst hs) <;> simp_all [normalEnd])
+      subst hfin
+      simp only [step] at hs
+      split at hs <;> simp at hs
+      rename_i hc; subst hs
+      obtain ⟨n, hn, hcount, _, _⟩ := finish_exact c hT s hi hc.1 hc.2
+      exact ⟨n, hn, List.perm_iff_count.mpr (fun i => by rw [hcount i, List.count_range])⟩
+
+
+end Sedpack.Pool
